@@ -181,6 +181,108 @@ Theorem C06_drops_distinct :
 Proof. exact drops_distinct. Qed.
 
 
+(* ---- histories ---- *)
+From AV.Model Require Import Base Bytes Vec Ops Interp.
+From AV.Spec Require Import WorldSpec.
+From AV.Proofs Require Import WorldProofs WorldFused OwnHistory.
+(** WHOLE HISTORIES WITH PANICKING USER CODE.  [WorldSpec.spec_step_f] gives a script step that carries a fuse (the (k+1)-th call of user code it makes panics) its meaning on lists; [spec_run_f] a whole history in which any step may carry one.  The fused fragment: clear (the destructor of element k panics: elements 0..k have been destroyed - each once -, the vector is empty, elements k+1.. are leaked) and a dropped removal handle of pop / remove / swap_remove (the element's destructor panics: the vector keeps the elements in front of the handle, the tail behind it is leaked), erased and typed, with every fuse length (a fuse longer than the step changes nothing); steps without a fuse are the whole fragment of AV.Props.C01.  [C06_step_refines_fused] / [C06_history_refines_fused]: the byte-level machine ([Interp.run_step] with that fuse, through the unwinding glue of [Interp.exec]) shows exactly the specification's outcome, panic kind, events and lists, never faults, and the vectors stay represented - hence usable - afterwards, at any point of any history of any number of vectors.  [C06_history_exactly_once_fused] (on the specification, transferred by the refinement): after every such history the identities created are exactly those visible + destroyed + leaked, so nothing is destroyed twice, nothing destroyed or leaked is still visible, nothing is visible twice - the only damage is leaks.  Non-vacuity: [exf_admissible], [exf_outcomes] (a 15-step history with five armed steps).  Still one-step theorems + correspondence: panics inside drain / splice / clone / lazy clones, and replacement iterators that panic. *)
+Theorem C06_clear_fused :
+  forall (c : cfg) (v : vec) (u : uw) (xs : list N) (k : N),
+         Rep c v xs ->
+         ufuse u = Some k ->
+         exists u' : uw,
+           clear c (v, u) =
+           (if c_dg c && (k <? N.of_nat (length xs))
+            then Panic PUser (with_len 0 v, u')
+            else Ok tt (with_len 0 v, u')) /\
+           Rep c (with_len 0 v) [] /\
+           unext u' = unext u /\
+           ulog u' =
+           rev
+             (if c_dg c
+              then if k <? N.of_nat (length xs) then map EDrop (firstn (S (N.to_nat k)) xs) else map EDrop xs
+              else []) ++ ulog u.
+Proof. exact clear_fused. Qed.
+
+Theorem C06_handle_drop_fused :
+  forall (c : cfg) (v : vec) (u : uw) (xs : list N) (k : tkind) (i : nat) (h : temp) 
+           (known : bool) (f : N),
+         Rep c v xs ->
+         temp_req k i xs ->
+         temp_for c v xs k i h ->
+         ufuse u = Some f ->
+         if c_dg c && (f =? 0)
+         then
+          exists u' : uw,
+            temp_drop c known h (with_len (N.of_nat i) v, u) = Panic PUser (with_len (N.of_nat i) v, u') /\
+            unext u' = unext u /\ ulog u' = EDrop (nth i xs 0) :: ulog u
+         else
+          exists (v' : vec) (u' : uw),
+            temp_drop c known h (with_len (N.of_nat i) v, u) = Ok tt (v', u') /\
+            Rep c v' (temp_result k i xs) /\
+            vcap v' = vcap v /\
+            vbk v' = vbk v /\
+            unext u' = unext u /\ ulog u' = (if c_dg c then [EDrop (nth i xs 0)] else []) ++ ulog u.
+Proof. exact temp_drop_fused. Qed.
+
+(** one script step, with or without a fuse *)
+Theorem C06_step_refines_fused :
+  forall (c : cfg) (w : world) (st : astate) (fuse : option N) (o : op) (r : sres),
+         cfg_wf c ->
+         WRep c w st ->
+         spec_step_f c st (unext (wuw w)) fuse o = Some r ->
+         admissible c w o -> obs_match c (run_step c fuse o w) r.
+Proof. exact step_refines_f. Qed.
+
+Theorem C06_history_refines_fused :
+  forall (c : cfg) (ops : list (option N * op)) (w : world) (st : astate) (rs : list sres),
+         cfg_wf c ->
+         WRep c w st ->
+         spec_run_f c st (unext (wuw w)) ops = Some rs ->
+         Admissible_f c w ops -> Forall2 (obs_match c) (run_hist_f c ops w) rs.
+Proof. exact history_refines_f. Qed.
+
+Theorem C06_history_accounting_fused :
+  forall (c : cfg) (ops : list (option N * op)) (st : astate) (nx : N) (rs : list sres) (D L : list N),
+         c_dg c = true ->
+         1 <= nx ->
+         spec_run_f c st nx ops = Some rs ->
+         Permutation.Permutation (created c nx) (vis st ++ D ++ L) ->
+         Permutation.Permutation (created c (snd (end_of st nx rs)))
+           (vis (fst (end_of st nx rs)) ++ (D ++ hist_drops rs) ++ L ++ hist_leaks_f c st nx ops).
+Proof. exact history_own_f. Qed.
+
+Theorem C06_history_exactly_once_fused :
+  forall (c : cfg) (ops : list (option N * op)) (rs : list sres),
+         c_dg c = true ->
+         c_sz c <> 0 ->
+         spec_run_f c [] 1 ops = Some rs ->
+         NoDup (vis (fst (end_of [] 1 rs)) ++ hist_drops rs ++ hist_leaks_f c [] 1 ops).
+Proof. exact history_exactly_once_f. Qed.
+
+Theorem C06_example_admissible :
+  Admissible_f ex_cfg init_world exf_ops.
+Proof. exact exf_admissible. Qed.
+
+Theorem C06_example_outcomes :
+  map
+           (fun r : sres =>
+            (s_out r, s_pk r, s_evs r,
+             map (fun o : option avec => match o with
+                                         | Some a => a_xs a
+                                         | None => []
+                                         end) (s_st r)))
+           match spec_run_f ex_cfg [] 1 exf_ops with
+           | Some rs => rs
+           | None => []
+           end =
+         [(0, 0, [], [[]]); (0, 0, [], [[1]]); (0, 0, [], [[1; 2]]); (0, 0, [], [[1; 2; 3]]);
+          (0, 0, [], [[1; 2; 3; 4]]); (2, 8, [EDrop 2], [[1]]); (0, 0, [EDrop 1], [[]]); (
+          0, 0, [], [[5]]); (0, 0, [], [[5; 6]]); (0, 0, [], [[5; 6; 7]]); (2, 8, [EDrop 5; EDrop 6], [[]]);
+          (1, 0, [], [[]]); (0, 0, [], [[8]]); (0, 0, [EDrop 8], [[]]); (0, 0, [], [[]])].
+Proof. exact exf_outcomes. Qed.
+
+(* ---- end histories ---- *)
 Print Assumptions C06_clear_panics.
 Print Assumptions C06_clear_fuse_survives.
 Print Assumptions C06_handle_drop_panics.
@@ -192,3 +294,11 @@ Print Assumptions C06_clone_vec_panics.
 Print Assumptions C06_splice_liar.
 Print Assumptions C06_prefix_nodup.
 Print Assumptions C06_drops_distinct.
+Print Assumptions C06_clear_fused.
+Print Assumptions C06_handle_drop_fused.
+Print Assumptions C06_step_refines_fused.
+Print Assumptions C06_history_refines_fused.
+Print Assumptions C06_history_accounting_fused.
+Print Assumptions C06_history_exactly_once_fused.
+Print Assumptions C06_example_admissible.
+Print Assumptions C06_example_outcomes.
